@@ -265,3 +265,18 @@ def unchanged_defs(trees, path=SPEC):
                 else:
                     changed.add(ids[0])
     return out - changed
+
+
+_REVIEWED_IDS = None
+
+
+def reviewed_identifiers(path=SPEC):
+    """every identifier (names, attribute names, parameters) that occurs anywhere in the reviewed tree"""
+    global _REVIEWED_IDS
+    if _REVIEWED_IDS is None:
+        ids = set()
+        if os.path.exists(path):
+            for u in json.load(open(path))['units']:
+                ids.update(u[3])
+        _REVIEWED_IDS = ids
+    return _REVIEWED_IDS
